@@ -66,6 +66,11 @@ pub fn indent(s: &str, prefix: &str) -> String {
             result.push_str(prefix);
         }
         result.push_str(line);
+        #[cfg(feature = "verif-hooks")]
+        crate::verif::emit(
+            "indent.line",
+            &[crate::verif::n(idx), crate::verif::n(result.len())],
+        );
     }
     if s.ends_with('\n') {
         // split_terminator will have eaten the final '\n'.
